@@ -148,6 +148,19 @@ META = {
         assumptions=[],
         timeout=2400,
     ),
+    "C02": dict(
+        rule="one AT local transaction (autocommit statement, or explicit BEGIN/1-2 statements/COMMIT; UPDATE, DELETE or "
+             "INSERT that certainly changes a row) inside a global transaction, run once fault-free and then once per "
+             "fault: a database failure at every statement index of the business connection (BEGIN, image selects, the "
+             "business statement, the undo_log INSERT, COMMIT), a refused registration, a registration transport "
+             "failure, and 1/2/5 lost status reports (fault-free and with the COMMIT failing). The model is given only the "
+             "fault-free trace and the fault and predicts the faulted trace, durability, the returned error and whether "
+             "the pooled connection is left inside a transaction; the oracle checks atomicity and ordering on the trace itself",
+        trusted=["memdb journal order on the one pooled business connection; fakecoord positions recorded synchronously "
+                 "inside the client's send; report retry back-off is real time"],
+        assumptions=["table meta is cached before the observed run (meta queries run on another connection)"],
+        timeout=2400,
+    ),
 }
 
 def _member(impl, model):
